@@ -29,6 +29,8 @@ def parseNumDesc (s : String) : Option NumDesc :=
   | ["TM", f, r, e] => do pure (.test (← intList f) (← intList r) (← e.toInt?))
   -- TS: the two lists are windows of ONE caller buffer (C13/C14): same Number expected
   | ["TS", f, r, e] => do pure (.test (← intList f) (← intList r) (← e.toInt?))
+  -- TE: empty lists passed as empty non-nil slices
+  | ["TE", f, r, e] => do pure (.test (← intList f) (← intList r) (← e.toInt?))
   | ["FM", f, e] => do pure (.finite (← intList f) (← e.toInt?))
   | ["G", l, e, i] => do pure (.gen (← l.toInt?) (← e.toInt?) (i != "0") none)
   | ["G", l, e, i, f] => do pure (.gen (← l.toInt?) (← e.toInt?) (i != "0") (some (← f.toInt?)))
